@@ -4,7 +4,8 @@ import os
 import common
 
 PROPS = "RotoV.Props.C16"
-MODULES = ["RotoV.Lemmas.ListConc", "RotoV.Model.ListConc", "RotoV.Lemmas.ListTrace", "RotoV.Model.ListTrace"]
+MODULES = ["RotoV.Lemmas.ListConc", "RotoV.Model.ListConc", "RotoV.Lemmas.ListTrace", "RotoV.Model.ListTrace",
+           "RotoV.Lemmas.ListConcIter", "RotoV.Model.ListConcIter"]
 
 
 def harness_args(ctx, seed, tier, model=True):
@@ -107,7 +108,9 @@ def named_functions(ctx):
 
 
 def run(ctx):
-    if ctx.extract(["c16facts"]):
+    # c16facts: lock-scope facts, traces, function enumeration; listiter: what `into_iter`
+    # initialises and `IntoIter::next` decides (the live-iterator layer of the model)
+    if ctx.extract(["c16facts", "listiter"]):
         named_functions(ctx)
     proved = ctx.prove(PROPS, extra_modules=MODULES)
     model = True
